@@ -224,10 +224,14 @@ func replayScaled(sc *scn, kc int) (res child.Result, nb1, nb2 int) {
 	s := 255 / sc.B
 	n := len(sc.T1)
 	t1, err := scaledTable(sc.T1, s, kc)
-	if err != nil {
-		return child.Inconclusive(err), 0, 0
+	var t2 *Built
+	if err == nil {
+		t2, err = scaledTable(sc.T2, s, kc)
 	}
-	t2, err := scaledTable(sc.T2, s, kc)
+	if errors.Is(err, ErrUnreadable) {
+		// no diff of this pair can be had: the repository's readers refuse an operand its ingest stored
+		return child.Fail("diff/operand-unreadable", map[string]interface{}{"error": err.Error()}), 0, 0
+	}
 	if err != nil {
 		return child.Inconclusive(err), 0, 0
 	}
